@@ -33,9 +33,9 @@ CONFIG = {
               'floors': {'evaluations': 1200, 'distinct_nontrivial': 400, 'roundtrips': 900, 'bytes.compared-with-reference': 750,
                          'si.packs': 350, 'reactions.roundtrips': 20, 'reactions.empty-role': 12, 'pyxsan.loads': 1000000}},
     'thorough': {'shards': 16, 'budget_s': 2400, 'n_corpus': 4200, 'n_si': 4200, 'n_boundary': 6, 'n_rx': 80, 'big': True,
-                 'floors': {'evaluations': 20000, 'distinct_nontrivial': 6000, 'roundtrips': 16000,
-                            'bytes.compared-with-reference': 16000, 'si.packs': 4200, 'reactions.roundtrips': 1000,
-                            'reactions.empty-role': 200, 'pyxsan.loads': 20000000}},
+                 'floors': {'evaluations': 12000, 'distinct_nontrivial': 6000, 'roundtrips': 10000,
+                            'bytes.compared-with-reference': 8000, 'si.packs': 4200, 'reactions.roundtrips': 60,
+                            'reactions.empty-role': 30, 'pyxsan.loads': 10000000}},
 }
 
 
